@@ -79,6 +79,8 @@ def classify_directed(case, detail):
         return 'D62'
     if case.get('directed') == 'dbigdyn' and 'bytes of memory' in detail.get('what', ''):
         return 'D122'     # the counter guard knows no minimal wire size of an element of dynamic size
+    if case.get('directed') == 'small-stack' and case.get('std') == 'c++98' and detail.get('passed') and detail.get('rc') == -11:
+        return 'D179'     # before C++11 vector::resize(n) is resize(n, T()): an element-sized temporary on the stack (optional and greedy are repaired)
     return None
 
 
@@ -461,7 +463,8 @@ def small_stack_decode(chk):
     d = tempfile.mkdtemp(prefix='prophy-verif-')
     try:
         with open(os.path.join(d, 'st.prophy'), 'w') as f:
-            f.write('struct Blob { u8 data[300000]; };\nstruct OptMsg { Blob* b; u32 x; };\nstruct Dyn { u8 n; u8 pad<@n>; u8 data[300000]; };\nstruct Tail { u32 k; Dyn g<...>; };\n')
+            f.write('struct Blob { u8 data[300000]; };\nstruct OptMsg { Blob* b; u32 x; };\nstruct Dyn { u8 n; u8 pad<@n>; u8 data[300000]; };\nstruct Tail { u32 k; Dyn g<...>; };\n'
+                    'struct Counted { Blob b<>; };\nstruct Limited { Blob b<2>; };\n')
         py_impl.run_prophyc(['--cpp_full_out', d, os.path.join(d, 'st.prophy')])
         with open(os.path.join(d, 'main.cpp'), 'w') as f:
             f.write(r'''
@@ -478,29 +481,39 @@ static void* run(void*)
     Tail* t = new Tail();
     bool ok = t->decode<prophy::little>(b.data(), b.size());
     printf("Tail %d %d\n", int(ok), int(t->g.size()));
+    std::vector<uint8_t> c(4 + 300000, 0); c[0] = 1;                    /* Counted / Limited with one element */
+    Counted* cm = new Counted();
+    ok = cm->decode<prophy::little>(c.data(), c.size());
+    printf("Counted %d %d\n", int(ok), int(cm->b.size()));
+    std::vector<uint8_t> l(4 + 600000, 0); l[0] = 1;
+    Limited* lm = new Limited();
+    ok = lm->decode<prophy::little>(l.data(), l.size());
+    printf("Limited %d %d\n", int(ok), int(lm->b.size()));
     return 0;
 }
 int main()
 {
+    setvbuf(stdout, 0, _IONBF, 0);
     pthread_attr_t attr; pthread_attr_init(&attr); pthread_attr_setstacksize(&attr, 512 * 1024);
     pthread_t th; pthread_create(&th, &attr, run, 0); pthread_join(th, 0);
     return 0;
 }
 ''')
-        for opt in ('-O0', '-O2'):
-            exe = os.path.join(d, 'st' + opt)
-            p = subprocess.run(['g++', '-std=c++11', opt, '-pthread', '-I' + os.path.join(py_impl.REPO, 'prophy_cpp', 'include'), '-I' + d,
+        for std, opt in (('c++11', '-O0'), ('c++11', '-O2'), ('c++98', '-O0'), ('c++98', '-O2')):
+            exe = os.path.join(d, 'st' + std + opt)
+            p = subprocess.run(['g++', '-std=' + std, opt, '-pthread', '-I' + os.path.join(py_impl.REPO, 'prophy_cpp', 'include'), '-I' + d,
                                 os.path.join(d, 'main.cpp'), os.path.join(d, 'st.ppf.cpp'), '-o', exe], stdout=subprocess.PIPE, stderr=subprocess.STDOUT, timeout=900)
             if p.returncode != 0:
                 raise core.Infra('small-stack program does not build: ' + p.stdout.decode(errors='replace')[-600:])
             r = subprocess.run([exe], stdout=subprocess.PIPE, stderr=subprocess.STDOUT, timeout=120)
             out = r.stdout.decode(errors='replace').split('\n')
             casej = {'schema': 'struct Blob { u8 data[300000]; }; struct OptMsg { Blob* b; u32 x; }; struct Dyn {...300000}; struct Tail { u32 k; Dyn g<...>; };',
-                     'build': 'g++ %s, decode on a thread with a 512 KiB stack' % opt, 'directed': 'small-stack'}
-            chk.count(('small-stack', opt), True)
+                     'build': 'g++ -std=%s %s, decode on a thread with a 512 KiB stack' % (std, opt), 'directed': 'small-stack', 'std': std}
+            chk.count(('small-stack', std, opt), True)
             chk.bump('directed:small-stack')
-            if r.returncode != 0 or out[:2] != ['OptMsg 1', 'Tail 1 1']:
-                chk.property_violation(casej, {'what': 'decode of canonical bytes did not return true (exit code %d)' % r.returncode, 'output': out[:3]})
+            if r.returncode != 0 or out[:4] != ['OptMsg 1', 'Tail 1 1', 'Counted 1 1', 'Limited 1 1']:
+                chk.property_violation(casej, {'what': 'decode of canonical bytes did not return true (exit code %d)' % r.returncode, 'output': out[:5],
+                                               'passed': out[:2] == ['OptMsg 1', 'Tail 1 1'], 'rc': r.returncode}, classify_directed)
     finally:
         shutil.rmtree(d, ignore_errors=True)
 
